@@ -40,7 +40,9 @@ def main():
                 how["proof_obligations_broken"] = int(cov.get("obligations", 0)) - int(cov.get("discharged", 0))
                 bad = {}
                 for cn, cs in (cov.get("correspondence") or {}).items():
-                    if isinstance(cs, dict):
+                    if isinstance(cs, dict) and not cs:
+                        bad[cn] = "raised (source guard of the instrumented copy, or crash): reported as a broken correspondence"
+                    elif isinstance(cs, dict):
                         n = cs.get("cases", cs.get("histories"))
                         if "agree" in cs and n is not None and cs["agree"] != n:
                             bad[cn] = f"{n - cs['agree']}/{n} runs disagree"
